@@ -45,6 +45,7 @@ type Card struct {
 	Path   string `json:"path"`
 	ETag   string `json:"etag,omitempty"`
 	Fields []Fld  `json:"fields"`
+	Pref   []int  `json:"pref,omitempty"` // indices of fields that carry PREF=1 (the reference ignores parameters)
 }
 
 func (c Card) values(name string) []string {
